@@ -13,7 +13,7 @@ func init() {
 	register(&PropDef{
 		ID:    "C52",
 		Pkgs:  []string{altsc},
-		Claim: "Decides the structural part (sibling check over every ALTSRecordCrypto implementation): each Seal takes its nonce from the outgoing counter's Value(), is unreachable when Value() failed, and is followed by exactly the outgoing counter's Inc() on every path to a return; each Open takes its nonce from the incoming counter, a failed Open returns an error without advancing the counter and a successful one advances it before returning; Counter.Inc marks the counter invalid exactly when the carry runs through all overflowLen bytes, does nothing once invalid, and Value() fails when invalid (so no nonce repeats); the payload of each written frame is min(remaining, payloadLengthLimit) with payloadLengthLimit = max(4 KiB, negotiated) - overhead; both frame parsers are called with the 1 MiB record limit and reject longer frames before slicing; decryption is reached only after the minimum-length and message-type checks.",
+		Claim: "Decides the structural part (sibling check over every ALTSRecordCrypto implementation): each Seal takes its nonce from the outgoing counter's Value(), is unreachable when Value() failed, and is followed by exactly the outgoing counter's Inc() on every path to a return; each Open takes its nonce from the incoming counter, a failed Open returns an error without advancing the counter and a successful one advances it before returning; Counter.Inc marks the counter invalid exactly when the carry runs through all overflowLen bytes, does nothing once invalid, and Value() fails when invalid (so no nonce repeats); the payload of each written frame is min(remaining, payloadLengthLimit) with payloadLengthLimit = max(4 KiB, negotiated) - overhead; both frame parsers are called with the 1 MiB record limit and reject longer frames before slicing; decryption is reached only after the minimum-length and message-type checks. The counter carry stops only at a byte that did not wrap; a frame is returned only with a complete length header; whenever a receive buffer takes over the length of another buffer its bytes were copied first; Decrypt is reached only with a complete frame.",
 		NotDecided:  []string{"byte-exact reassembly under arbitrary TCP segmentation and read-buffer sizes", "cryptographic strength of AES-GCM (tamper detection is the AEAD's contract)"},
 		Assumptions: []string{"crypto/cipher AEAD contract: Open fails on any modified ciphertext/nonce"},
 		Technique:   "static analysis: sibling cross-check of all implementations of one interface over go/ssa (value origin of nonce arguments, refusing-arm unreachability, must-pass-through to the counter increment), dominating guards, expression-shape checks of length limits",
